@@ -69,7 +69,9 @@ def special_values(draw, spec, cfg, parent="root"):
     if k == "struct":
         out = {}
         for fn, ft in spec["fields"]:
-            if ft["k"] == "scalar" and draw(st.integers(0, 7)) == 0:
+            if ft["k"] == "ref" and "default" in ft and draw(st.integers(0, 1)) == 0:
+                out[fn] = {"$omit": 1}  # not supplied: a referent of its own holding the declared default
+            elif ft["k"] == "scalar" and draw(st.integers(0, 7)) == 0:
                 out[fn] = {"$omit": 1}  # not supplied: reads back as the default 0, also on memory that was used before
             else:
                 out[fn] = special_values(draw, ft, cfg, "struct")
